@@ -1,17 +1,19 @@
+\* Reference configuration (the drivers c09.py / c12.py generate their own, see notes/C09.md "Bounds"):
+\* two contexts, two names, one- and two-alias services, flags = {} : every invariant must hold.
 SPECIFICATION Spec
 CONSTANTS
  MaxGen = 4
- MaxSteps = 6
+ MaxSteps = 4
  Ctx = {"c1", "c2"}
  Name = {"f", "g"}
  FlagSets = {{}}
  SubSet = {"dm"}
  StartedSet = {TRUE}
  Eager = TRUE
- DeclSet = {1, 2, 3}
- MaxDefs = 2
- Vias = {"exec", "run"}
- Acts = {"define", "del", "rebind", "push", "pop", "clear", "reload", "close", "unload", "boot", "fire", "set", "call", "out"}
+ DeclSet = {1, 3}
+ MaxDefs = 1
+ Vias = {"exec"}
+ Acts = {"define", "del", "rebind", "close", "unload", "call"}
 VIEW View
 INVARIANT ActiveIffReferencedAndLoaded
 INVARIANT TablesEqualUnionOfActive
@@ -22,8 +24,8 @@ INVARIANT RegisteredIffCounted
 INVARIANT CountIsLiveDeclarations
 INVARIANT HandlerIsLatestLiveDeclaration
 INVARIANT NoTakeoverAcrossContexts
-PROPERTY RefusedLeavesRegistry
 PROPERTY NoRunOfDeadGeneration
+PROPERTY RefusedLeavesRegistry
 PROPERTY CallDeliversDataAndTriggerType
 PROPERTY ResponseReturnedWhenSupported
 PROPERTY OutgoingCallDeliversGivenKeywords
